@@ -108,8 +108,14 @@ def matrix_case(case):
         np.savetxt(os.path.join(d, "train_response.txt"),
                    np.array(y, dtype=float))
         ndef = 0
-        for (rinf, imp, rnan) in case.get("flags", FLAGS):
-            sub = dict(case, flags=[[rinf, imp, rnan]])
+        # the same directory is loaded with every flag set, forwards and
+        # then backwards (a load must not depend on the loads before it);
+        # a witness carries the loads made so far
+        seq = case.get("flags") or (list(FLAGS) + list(FLAGS)[::-1])
+        done = []
+        for (rinf, imp, rnan) in seq:
+            done.append([rinf, imp, rnan])
+            sub = dict(case, flags=[list(f) for f in done])
             wit = f"n={n},m={m},flags={int(rinf)}{int(imp)}{int(rnan)}"
 
             def viol(clause, detail):
